@@ -14,14 +14,14 @@ Notation length := List.length (only parsing).
 
 (* result of an arm that is not a character arm *)
 Definition plain_res (r : presult) : Prop :=
-  r = Done \/ r = DoneAckSelfClosing \/ (exists l, r = PEncoding l) \/ (exists k, r = ToRawData k) \/ r = ToPlaintext.
+  r = Done \/ r = DoneAckSelfClosing \/ (exists k, r = ToRawData k) \/ r = ToPlaintext.
 
 Definition tag_post (r : presult) (s' : st) : Prop := TInv s' /\ plain_res r.
 
 Lemma tag_post_step t r s' : is_chars t = false -> tag_post r s' -> step_post t r s'.
 Proof.
   intros C [I R].
-  destruct R as [->|[->|[[l ->]|[[k ->]| ->]]]]; (split; [exact I | apply res_ok_nonchars; [exact C | exact Logic.I]]).
+  destruct R as [->|[->|[[k ->]| ->]]]; (split; [exact I | apply res_ok_nonchars; [exact C | exact Logic.I]]).
 Qed.
 Lemma tag_post_done r s' : is_done r s' -> tag_post r s'.
 Proof. intros [I ->]. split; [exact I | left; reflexivity]. Qed.
@@ -288,7 +288,7 @@ Proof.
   eapply (wp_close_p_element_in_button_scope s); [apply keeps_refl; exact I | exact L |].
   intros s1 K1 _. rewrite wp_bind. unfold insert_element_for.
   eapply (wp_insert_element_std s); [exact K1 | eapply keeps_late; eassumption | exact N1 | exact N2 |].
-  intros h s2 K2 _ _ _ _. rewrite wp_ret. split; [exact (keeps_TInv _ _ K2)|]. right; right; right; right; reflexivity.
+  intros h s2 K2 _ _ _ _. rewrite wp_ret. split; [exact (keeps_TInv _ _ K2)|]. right; right; right; reflexivity.
 Qed.
 
 Lemma button_not_html : nm "button" <> nm "html". Proof. discriminate. Qed.
@@ -639,7 +639,7 @@ Section Arms5.
 Context (ih it self : body).
 
 Lemma raw_post k s' : TInv s' -> tag_post (ToRawData k) s'.
-Proof. intro I. split; [exact I | right; right; right; left; eauto]. Qed.
+Proof. intro I. split; [exact I | right; right; left; eauto]. Qed.
 
 Lemma ib_37_ok s t : TInv s -> late s -> saving_mode (mode s) = false ->
   (ns_html, tname t) <> (ns_html, nm "head") -> (ns_html, tname t) <> (ns_html, nm "template") ->
